@@ -771,6 +771,58 @@ def foreign_formal_programs(export=("ExportJson", "ExportProvn")):
     return [p]
 
 
+
+def same_text_programs(export=("ExportJson",), derive=False, memberships=False):
+    """fixed programs for order dependence: one attribute holding several values that print alike but are different values
+    (2 / "2", True / "True", 2.5 / "2.5", a qualified name / the string spelling it, a URI as xsd:anyURI / as a string /
+    as a qualified name) with other values between them, and memberships listing several members given in non-sorted
+    order — in several variants (other texts, other insertion orders), because which order a set iterates in depends on
+    the values and on PYTHONHASHSEED; exported (each export twice, in two sequences), optionally followed by every
+    deriving call"""
+    EXU = "http://example.org/"
+    out = []
+    variants = [("2", "beta", "Person", "home", ["e3", "e1", "e2"]), ("3", "gamma", "Employee", "index", ["m2", "m9", "m1", "m5"]),
+                ("7", "x", "Org", "a", ["b", "a"]), ("12", "checked twice", "T", "page/1", ["z", "y", "x", "w", "v"]),
+                ("40", "q", "Kind", "p", ["e1", "e10", "e2"])]
+    for vi, (num, word, ty, page, members) in enumerate(variants):
+        U = EXU + page
+        for rev in (False, True):
+            def o(l):
+                return list(reversed(l)) if rev else l
+            k = ["S", "ex:k"]
+            recs = [
+                ["NewRecord", ["d", "0"], "Entity", ["S", "ex:e1"], [[k, v] for v in o([["str", num], ["int", num], ["str", word]])]],
+                ["NewRecord", ["d", "0"], "Agent", ["S", "ex:ag"],
+                 [[["S", "prov:type"], v] for v in o([["qn", "ex", EXU, ty], ["str", "ex:" + ty], ["qn", "ex", EXU, ty + "2"], ["str", "staff"]])]],
+                ["NewRecord", ["d", "0"], "Activity", ["S", "ex:a1"],
+                 [[k, v] for v in o([["bool", "true"], ["str", "True"], ["str", word], ["str", "signed off"]])]],
+                ["NewRecord", ["d", "0"], "Entity", ["S", "ex:ref"], [[k, v] for v in o([["str", U], ["id", U], ["qn", "ex", EXU, page]])]],
+                ["NewBundle", "0", ["S", "ex:b"]],
+                ["NewRecord", ["b", "0", "0"], "Entity", ["S", "ex:page"],
+                 [[k, v] for v in o([["id", U], ["str", U], ["str", "mirror"], ["float", "2.5", "none", "2.5"], ["str", "2.5"]])]],
+                ["NewRecord", ["b", "0", "0"], "Membership", "none",
+                 [[["Q", "prov", PROV, "collection"], ["qn", "ex", EXU, "c"]]] + [[["Q", "prov", PROV, "entity"], ["qn", "ex", EXU, m]] for m in members]],
+                ["NewRecord", ["d", "0"], "Membership", ["S", "ex:mm"],
+                 [[["Q", "prov", PROV, "collection"], ["qn", "ex", EXU, "c2"]]] + [[["Q", "prov", PROV, "entity"], ["qn", "ex", EXU, m]] for m in reversed(members)]],
+            ]
+            if not memberships:
+                # (a membership listing several members is the compatibility path no property but C12 / C13 speaks about)
+                recs = [r for r in recs if r[2] != "Membership"]
+            p = [["NewDoc"], ["AddNs", ["d", "0"], "ex", EXU]] + recs
+            seq = list(export) + ["ExportProvn"] + list(export) + ["ToGraph"] + list(export)
+            for e in seq:
+                p.append([e, "0"])
+            if derive:
+                p += [["Flattened", "0"], ["Unified", "0"], ["DocFromRecords", ["d", "0"]], ["DocFromRecords", ["b", "0", "0"]],
+                      ["NewDoc"], ["Update", ["d", "5"], ["d", "0"]], ["Update", ["d", "5"], ["d", "0"]],
+                      ["NewDoc"], ["NewDoc"], ["Update", ["d", "7"], ["b", "0", "0"]], ["AddNs", ["d", "6"], "ex", EXU],
+                      ["AddBundleDoc", "6", "7", ["S", "ex:attached"], ["ex"]]]
+                for e in export:
+                    for h in ("1", "2", "3", "5", "6"):
+                        p.append([e, h])
+            out.append(p)
+    return out
+
 def without_exports(ops):
     """the program without its export and observation calls — cut off before the first call that appends a document and
     is left out here (LoadJson, GraphRoundTrip): later calls name documents by their number"""
